@@ -287,6 +287,53 @@ func (e *Engine) registerIntrinsics() {
 		return []Outcome{{St: st, Panic: &PanicInfo{Msg: "log.Fatalf (process exit)"}}}
 	})
 
+	// ---- strconv.AppendInt(dst, i, 10) for small non-negative symbolic i (xbuf.B.Db prints a cycle count)
+	reg("strconv.AppendInt", func(e *Engine, st *State, args []Value, depth int) []Outcome {
+		e.modelsHit["strconv.AppendInt"] = true
+		dst := args[0].(*SliceV)
+		v := args[1].(*term.Term)
+		base, ok := concreteInt(args[2])
+		if !ok || base != 10 {
+			panic(unsupported("strconv.AppendInt with a base other than 10"))
+		}
+		if v.IsConst() {
+			s := strconv.FormatInt(int64(v.Val), 10)
+			return ret(st, e.appendRaw(st, dst, &StrV{S: s}, types.Typ[types.Uint8]))
+		}
+		if term.UB(v) > 999 {
+			panic(unsupported("strconv.AppendInt of a symbolic value that may exceed 999"))
+		}
+		// the number of digits is a structural property of the output: three outcomes
+		d := term.Extract(v, 9, 0) // 10 bits are enough for 0..999
+		c10, c100 := term.Const(10, 10), term.Const(10, 100)
+		dig := func(t *term.Term) *term.Term { return term.Add(term.Extract(t, 7, 0), term.Const(8, '0')) }
+		var res []Outcome
+		type variant struct {
+			cond   *term.Term
+			digits []*term.Term
+		}
+		vs := []variant{
+			{term.Ult(d, c10), []*term.Term{dig(d)}},
+			{term.And(term.Not(term.Ult(d, c10)), term.Ult(d, c100)), []*term.Term{dig(term.UDiv(d, c10)), dig(term.URem(d, c10))}},
+			{term.Not(term.Ult(d, c100)), []*term.Term{dig(term.UDiv(d, c100)), dig(term.URem(term.UDiv(d, c10), c10)), dig(term.URem(d, c10))}},
+		}
+		for i, va := range vs {
+			if va.cond == term.False {
+				continue
+			}
+			ns := st
+			if i < len(vs)-1 {
+				ns = st.fork()
+			}
+			ns.assume(va.cond)
+			if ns.dead() || !e.feasible(ns) {
+				continue
+			}
+			res = append(res, Outcome{St: ns, Ret: e.appendRaw(ns, dst, &StrV{B: va.digits}, types.Typ[types.Uint8])})
+		}
+		return res
+	})
+
 	// ---- bytes.Buffer
 	bufField := func(st *State, recv Value) *Ptr { return recv.(*Ptr).child(Step{Idx: 0}) }
 	bufWrite := func(e *Engine, st *State, recv Value, src Value) *term.Term {
